@@ -187,6 +187,13 @@ Proof.
     exact (comment_events oracle (template_mids f) 0%nat 1 X Hind m).
 Qed.
 
+Lemma events_range_split_gen : forall oracle toks a b st,
+  events_range oracle toks st (a + b) = events_range oracle toks st a ++ events_range oracle toks (st + a) b.
+Proof.
+  intros oracle toks. induction a as [|a IH]; intros b st; [cbn; rewrite Nat.add_0_r; reflexivity|].
+  cbn [Nat.add events_range]. rewrite IH, <- app_assoc. replace (S st + a)%nat with (st + S a)%nat by lia. reflexivity.
+Qed.
+
 (* the count of emitted diagnostics never decreases along a run *)
 Lemma cnt_mono : forall evs st, (cnt st <= cnt (run_from st evs))%nat.
 Proof.
@@ -217,6 +224,8 @@ Proof.
   cbv beta iota in Hfile. subst items'. clear xf'.
   rewrite tokens_of_app in *.
   destruct (header_turns f _ oracle Hind) as (_ & _ & Hev).
+  set (T := tokens_of (comment_items 0 1 (template_mids f)) ++
+            tokens_of (map (sh_item 11 (List.length (lines_text (template f)))) items)) in *.
   destruct (Nat.le_gt_cases 11 n) as [Hn|Hn].
   - replace n with (11 + (n - 11))%nat by lia. rewrite Hev. apply (accept f _ Hs).
   - (* fewer than eleven turns: a prefix of the header events, all block comments: nothing emitted *)
@@ -225,7 +234,22 @@ Proof.
     { intros a b H. rewrite run_from_app in H.
       pose proof (cnt_mono b (run_from ctx_init a)) as M. unfold cnt in M. lia. }
     pose proof (Hev 0%nat) as H0. rewrite Nat.add_0_r in H0. cbn [events_range] in H0. rewrite app_nil_r in H0.
-    unfold events_upto in *. replace 11%nat with (n + (11 - n))%nat in H0 by lia. rewrite events_range_split in H0.
-    apply (P _ (events_range oracle _ (0 + n) (11 - n))). rewrite <- H0.
+    unfold events_upto in *. replace 11%nat with (n + (11 - n))%nat in H0 by lia. rewrite events_range_split_gen in H0.
+    apply (P _ (events_range oracle T (0 + n) (11 - n))). rewrite H0.
     pose proof (accept f [] Hs) as A. rewrite app_nil_r in A. exact A.
+Qed.
+
+(* non-vacuity: for the repository's own header alone, the oracle "IsComment, 2 tokens" eleven times is induced *)
+Example induced_satisfiable :
+  induced (fun k => if Nat.ltb k 11 then Matched (s "IsComment") 2 else NoMatch)
+          (tokens_of (comment_items 0 1 (template_mids hud_fields))).
+Proof.
+  set (T := tokens_of (comment_items 0 1 (template_mids hud_fields))).
+  set (o := fun k => if Nat.ltb k 11 then Matched (s "IsComment") 2 else NoMatch).
+  assert (E : forall j, remaining o T (11 + j) = []).
+  { induction j as [|j IH]; [vm_compute; reflexivity|]. replace (11 + S j)%nat with (S (11 + j)) by lia.
+    cbn [remaining]. rewrite IH. unfold o. replace (Nat.ltb (11 + j) 11) with false by (symmetry; apply Nat.ltb_ge; lia). reflexivity. }
+  intros k r Hne Ht. destruct (Nat.lt_ge_cases k 11) as [Hk|Hk].
+  - do 11 (destruct k as [|k]; [vm_compute in Ht; inversion Ht; reflexivity|]). lia.
+  - exfalso. apply Hne. replace k with (11 + (k - 11))%nat by lia. apply E.
 Qed.
